@@ -177,3 +177,30 @@ package zipslicer
 //@   requires m.outz != nil && m.patch != nil && binpatch.repOK(m.patch) && binpatch.rangesOK(m.patch)
 //@   requires 0 <= m.outz.DirLoc && m.outz.DirLoc <= 2305843009213693952 && 0 <= m.indir && m.indir <= m.insize && m.insize <= 2305843009213693952
 //@   before call (*binpatch.PatchSet).Add(_, off, sz, blob): assert @directory_tail_replaced_as_a_whole off == m.indir && sz == m.insize - m.indir
+//@
+//@ func (*File).OpenAndTeeRaw
+//@   property C17 C03
+//@   requires fileOK(f)
+//@   ghost hdrOK bool = false
+//@   on call (*File).readLocalHeader(x) ret (e): hdrOK = (e == nil && x == f)
+//@   before call io.NewSectionReader(src, off, n): assert @member_data_starts_behind_the_local_header_name_and_extra hdrOK && src == f.r && \
+//@        off == f.Offset + 30 + f.lfh.FilenameLen + f.lfh.ExtraLen && n == f.CompressedSize
+//@
+//@ func (*File).Dump
+//@   property C17 C03
+//@   requires fileOK(f)
+//@   before call io.NewSectionReader(src, off, n): assert @member_data_starts_behind_the_local_header_name_and_extra src == f.r && \
+//@        off == f.Offset + 30 + f.lfh.FilenameLen + f.lfh.ExtraLen && n == f.CompressedSize
+//@
+//@ func (*File).GetLocalHeader
+//@   property C17
+//@   requires fileOK(f)
+//@   ensures @file_invariant_kept fileOK(f)
+//@   ensures @header_is_30_bytes_plus_name_and_extra ret1 == nil ==> len(ret0) == 30 + len(f.lfhName) + len(f.lfhExtra)
+//@   modifies f.lfh, f.lfhName, f.lfhExtra
+//@
+//@ func (*File).GetDataDescriptor
+//@   property C17
+//@   requires fileOK(f)
+//@   ensures @file_invariant_kept fileOK(f)
+//@   modifies f.lfh, f.lfhName, f.lfhExtra, f.ddb, f.CRC32
